@@ -41,7 +41,7 @@ def extract(g, X):
 
     def delims():
         b = X.fn_body(lexer, "is_delimiter")
-        return cl(X.ordered(X.contains_bytes(b, lexer), [40, 41, 60, 62, 91, 93, 123, 125, 47, 37]))
+        return cl(X.ordered(X.option_pred_set(b, lexer), [40, 41, 60, 62, 91, 93, 123, 125, 47, 37]))
     g.attempt([("font_delims", "list N")], "font: lexer/mod.rs:Lexer::is_delimiter", delims)
 
     def comment():
